@@ -173,7 +173,7 @@ fn check_cfg(ctx: &Ctx, cfg: &Cfg, dp: usize, stretch_len: usize) -> JobOut {
         for pre in &prefixes {
             // flat from the very first input at extreme magnitudes (with an active prefix of ordinary size the
             // squares of the jump overflow f64, which is not a flat-window matter)
-            let extreme: Vec<f64> = if pre.is_empty() { vec![1e200, 1e-200, 1e300] } else { vec![] };
+            let extreme: Vec<f64> = if pre.is_empty() { vec![1e200, 1e-200, 1e300, 1e-307, 3e-308, 1.5e-323] } else { vec![] };
             for (&level, via, cross) in levels.iter().chain(extreme.iter()).flat_map(|l| [(l, Via::Plain, false), (l, Via::Serde, false), (l, Via::Clone, false), (l, Via::CloneFromUsed, false), (l, Via::CloneFromBigger, false), (l, Via::Chain, false), (l, Via::Plain, true)]) {
                 // via: the instance is serialized + restored / replaced by its clone between prefix and
                 // stretch (short prefixes only)
@@ -498,7 +498,7 @@ pub fn run(ctx: &Ctx) -> CheckResult {
     res.extra.insert("configurations".into(), json!(jobs.len()));
     res.rule = "case = (configuration, active prefix, stretch kind, flat level, step of the stretch); the real output at every step whose reference window is degenerate (min(t,w) trailing inputs flat / zero-flow) must be finite, inside the documented range, and equal the documented neutral value where one is defined; non-trivial = non-empty active prefix".into();
     res.bounds = format!(
-        "all 22 indicators, periods 1..8; every active prefix over {{2, 0.3, 1e6, 7.7, 1e9}} up to depth {}, reset() being one of the prefix symbols, prefixes of length <= 1 also followed by a serde round trip / clone, and each prefix also fed through the other input path (bars before a scalar stretch and vice versa) (exponential-memory kinds at periods 1..3: {}), levels {{1, 0.1, 0.7, 3.3, 1e6, -1, -3.3}} (and 1e200, 1e-200, 1e300 for streams flat from the start), stretch kinds scalar / one-price bar / both alternating on one instance / zeros of both signs / same bar (CCI, MFI) / zero volume (MFI, OBV), every stretch length 1..{} ({} for exponential-memory kinds{}); periods 9, 14, 20, 33 after tick-grid walks of 3n..3n+3 inputs; flat stretches after a tick-grid walk of 2^22+4096 (2^23+4096) inputs on one instance; level sweep for periods 1..3: all two-decimal prices 0.01..20.00 and 2000 log-uniform levels in [1e-3, 1e6]",
+        "all 22 indicators, periods 1..8; every active prefix over {{2, 0.3, 1e6, 7.7, 1e9}} up to depth {}, reset() being one of the prefix symbols, prefixes of length <= 1 also followed by a serde round trip / clone, and each prefix also fed through the other input path (bars before a scalar stretch and vice versa) (exponential-memory kinds at periods 1..3: {}), levels {{1, 0.1, 0.7, 3.3, 1e6, -1, -3.3}} (and 1e200, 1e-200, 1e300, 1e-307, 3e-308 and the subnormal 1.5e-323 for streams flat from the start), stretch kinds scalar / one-price bar / both alternating on one instance / zeros of both signs / same bar (CCI, MFI) / zero volume (MFI, OBV), every stretch length 1..{} ({} for exponential-memory kinds{}); periods 9, 14, 20, 33 after tick-grid walks of 3n..3n+3 inputs; flat stretches after a tick-grid walk of 2^22+4096 (2^23+4096) inputs on one instance; level sweep for periods 1..3: all two-decimal prices 0.01..20.00 and 2000 log-uniform levels in [1e-3, 1e6]",
         4,
         3,
         if th { 600 } else { 64 },
